@@ -671,3 +671,42 @@ pub fn run_history<W: Write>(out: &mut W, index: usize, hist: &History) {
         }
     }
 }
+
+/// Builds expiring-key trees of `n`, `n/10`, ... entries in ascending, descending and shuffled key
+/// order (a third of the entries already expired at the export time) and prints, for each, the
+/// capacity and length of the exported vector next to the number of physically stored entries.
+pub fn big_export(n: usize) {
+    let mut size = n;
+    let mut rng = crate::rng::Rng::new(n as u64);
+    loop {
+        for order in 0..3 {
+            let mut keys: Vec<i32> = (0..size as i32).collect();
+            match order {
+                0 => {}
+                1 => keys.reverse(),
+                _ => {
+                    for i in (1..keys.len()).rev() {
+                        let j = rng.below(i as u64 + 1) as usize;
+                        keys.swap(i, j);
+                    }
+                }
+            }
+            let mut t: KeyExpTree<KKey, i32, i64> = KeyExpTree::new(8);
+            for (i, k) in keys.iter().enumerate() {
+                let e = if i % 3 == 0 { 5 } else { 1_000_000 };
+                t.insert(KKey { k: *k, exp: e, id: i as u32 + 1 }, i as i64, 0);
+            }
+            let (_, nodes, unused, _) = t.verif_snapshot();
+            let stored = nodes.len() - unused.len() - 1;
+            for time in [0, 5] {
+                let v = t.verif_clone().into_ordered_vec(time);
+                println!("BIGEXPORT order={} time={} inserted={} stored={} len={} cap={}", order, time, size, stored, v.len(), v.capacity());
+            }
+        }
+        if size < 10 {
+            break;
+        }
+        size /= 10;
+    }
+    println!("#END");
+}
